@@ -735,7 +735,7 @@ def o5_sunfrac(rep):
         cut = GramCut({"sat": sat, "sun": sun}, su.dot, su.norm, prefix="G")
         # norm(sun - sat) and dot(-sat, sun-sat) are matched against polynomials of the Gram entries by the solver
         cut2 = _DiffCut(cut, sat, sun)
-        with shadow(su, dot=cut2.dot, norm=cut2.norm):
+        with shadow(su, dot=cut2.dot, norm=cut2.norm, **({"safeArccos": su.arccos} if hasattr(su, "safeArccos") else {})):  # safeArccos == arccos on its domain (clipping only matters for rounding)
             out = su.calculateSunVizFraction(sat, sun)
         return out, cut, cut2
 
@@ -846,7 +846,7 @@ def o5b_sunfrac_edge(rep):
                 return x
             return real_arccos(u)
 
-        with shadow(su, arcsin=asin_provider, arccos=acos_provider):
+        with shadow(su, arcsin=asin_provider, arccos=acos_provider, **({"safeArccos": acos_provider} if hasattr(su, "safeArccos") else {})):
             out = su.calculateSunVizFraction(sat, sun)
         return out, angs
 
@@ -914,7 +914,7 @@ def o5c_sunfrac_exact(rep):
                 return x
             return real_arccos(u)
 
-        with shadow(su, dot=cut2.dot, norm=cut2.norm, arcsin=asin_provider, arccos=acos_provider):
+        with shadow(su, dot=cut2.dot, norm=cut2.norm, arcsin=asin_provider, arccos=acos_provider, **({"safeArccos": acos_provider} if hasattr(su, "safeArccos") else {})):
             out = su.calculateSunVizFraction(sat, sun)
         return out, angs, cut
 
